@@ -99,24 +99,33 @@ let buffer_len spec = List.fold_left (+) 0
 let marker : n list list = [ [N0; n_of_int 3]; [n_of_int 0xee; n_of_int 0xee; n_of_int 0xee] ]
 
 (* ------------------------------------------------------------------ qw *)
+let via_of t = match gs t "via" "conn" with "conn" -> ViaConnection | _ -> ViaOpener
+let wire_of chunks = List.fold_left (fun a c -> a + List.length c) 0 chunks
+
 let run_qw t =
   let role = gs t "role" "c" and kind = gs t "kind" "bi" and skip = gi t "skip" 0 in
   let seed = gi t "seed" 1 and mask = gi t "ids" 31 in
-  let dbl = gopt t "dbl" and dblp = gopt t "dblp" in
+  let dbl = gopt t "dbl" and dblp = gopt t "dblp" and psp = gopt t "psp" in
+  let via = via_of t in
   let win = max 1 (gi t "win" (1 lsl 20)) in
   let eff = max 1 (min win (gi t "cwin" (1 lsl 22))) in
   let fname, fcode, fat = parse_fault (gs t "fault" "none") in
   let fat_i = (try int_of_string fat with _ -> 0) in
   let bufs = let b = gs t "bufs" "-" in if b = "-" then [] else String.split_on_char ',' b in
   let ps_len = gopt t "ps" in
+  let peer_fault = (fname = "stop" || fname = "close" || fname = "timeout") in
   let id = stream_id role kind skip true in
   let s = ref (send_new (qsend_new id)) in
   let ids = ref [] in
   let q bit = if mask land (1 lsl bit) <> 0 then
       ids := (match send_id !s with Ok i -> i | _ -> failwith "send_id panics") :: !ids in
-  let res = ref "ok" and dbl_out = ref "-" and dblp_out = ref "-" and fin2 = ref None in
+  let res = ref "ok" and dbl_out = ref "-" and dblp_out = ref "-" and psp_out = ref "-" and fin2 = ref None in
+  let cancelled = ref false in
   let accepted_total = ref 0 in
-  let failing = match quinn_write_condition (fault_of fname fcode) with Some e -> Some e | None -> None in
+  let failing = quinn_write_condition (fault_of fname fcode) in
+  let fail_answer () = WFail (match failing with Some e -> e | None -> assert false) in
+  (* the peer reads exactly `fat` bytes before it stops / closes / falls silent: Quinn can take at most the window beyond that *)
+  let allowed () = if peer_fault then fat_i + eff - !accepted_total else max_int in
   let poll_fin () = match poll_finish !s with (Ready r, s') -> s := s'; r | (Pending, s') -> s := s'; failwith "finish pending" in
   if fname = "afin" then (match poll_fin () with Ok _ -> () | r -> res := "finerr:" ^ res_unit r);
   let sent = ref 0 in
@@ -147,16 +156,14 @@ let run_qw t =
           let guard = ref 0 in
           while not !finished do
             incr guard; if !guard > 100000 then failwith "model write loop";
-            (* the peer reads exactly `fat` bytes before it stops/closes: Quinn can take at most the window beyond that *)
-            let allowed = if fname = "stop" || fname = "close" then fat_i + eff - !accepted_total else max_int in
             let fail_now = (match failing with
               | Some _ when fname = "afin" -> true
-              | Some _ when (fname = "stop" || fname = "close") -> allowed <= 0
+              | Some _ when peer_fault -> allowed () <= 0
               | _ -> false) in
             let oracle =
               if !first_pending then [WBlocked]
-              else if fail_now then [WFail (match failing with Some e -> e | None -> assert false)]
-              else [WAccept (n_of_int (min step allowed)); WBlocked] in
+              else if fail_now then [fail_answer ()]
+              else [WAccept (n_of_int (min step (allowed ()))); WBlocked] in
             let before = List.length (!s).s_q.qs_log in
             let ((r, s'), _) = poll_ready oracle !s in
             s := s';
@@ -171,6 +178,18 @@ let run_qw t =
                    | (Ok _, s') -> s := s'; dblp_out := "ACCEPTED"
                    | (Err e, s') -> s := s'; dblp_out := "refused:" ^ stream_class e
                    | (Panic _, _) -> dblp_out := "PANIC"
+                 end;
+                 if fname = "cfin" && fat_i = j then begin
+                   (* the pending write is abandoned and the stream finished *)
+                   cancelled := true; finished := true; stop := true;
+                   res := res_unit (poll_fin ())
+                 end else if psp = Some j then begin
+                   (* poll_send while the framed write is unfinished, Quinn willing to take bytes *)
+                   match poll_send [WAccept (n_of_int 100)] [List.init 100 (fun _ -> n_of_int 0xdd)] !s with
+                   | (((Ready (Panic _), _), _), _) -> psp_out := "panic"
+                   | (((Ready (Ok k), s'), _), _) -> s := s'; psp_out := "ACCEPTED:" ^ string_of_n k
+                   | (((Ready (Err e), _), _), _) -> psp_out := "err:" ^ stream_class e
+                   | (((Pending, _), _), _) -> psp_out := "ACCEPTED:pending"
                  end
                end
              | Ready (Ok _) -> finished := true; incr sent
@@ -181,18 +200,22 @@ let run_qw t =
     end) bufs;
   q 3;
   let ps_out = ref "-" in
-  let ps_bytes = match ps_len with Some n when fname = "none" -> gen_bytes seed 1000 0 n | _ -> [] in
+  let ps_bytes = match ps_len with Some n -> gen_bytes seed 1000 0 n | None -> [] in
   (match ps_len with
-   | Some n when fname = "none" && !res = "ok" ->
+   | Some n when (fname = "none" || peer_fault) && !res = "ok" ->
      ps_out := "ok";
-     let buf = ref (if n > 0 then [ps_bytes] else []) in
+     let take a b = List.filteri (fun i _ -> i >= a && i < b) ps_bytes in
+     let buf = ref (if n = 0 then [] else if seed land 1 = 1 && n >= 3 then
+                      let k = n / 3 in [take 0 k; take k (2 * k); take (2 * k) n] else [ps_bytes]) in
      let step = max 1 (max win (n / 12)) in
      let guard = ref 0 in
      while !ps_out = "ok" && List.concat !buf <> [] do
        incr guard; if !guard > 100000 then failwith "model poll_send loop";
        let before = List.length (List.concat !buf) in
-       (match poll_send [WAccept (n_of_int step)] !buf !s with
+       let oracle = if peer_fault && allowed () <= 0 then [fail_answer ()] else [WAccept (n_of_int (min step (allowed ())))] in
+       (match poll_send oracle !buf !s with
         | (((Ready (Ok k), s'), b'), _) -> s := s'; buf := b';
+          accepted_total := !accepted_total + int_of_n k;
           if before - List.length (List.concat b') <> int_of_n k then ps_out := "BADCOUNT"
         | (((Ready r, _), _), _) -> ps_out := (match r with Err e -> "err:" ^ stream_class e | _ -> "PANIC")
         | (((Pending, _), _), _) -> ())
@@ -200,49 +223,80 @@ let run_qw t =
    | _ -> ());
   let end_ = ref "open" in
   (match fname with
-   | "none" -> if !res = "ok" then (match poll_fin () with Ok _ -> () | r -> res := "finerr:" ^ res_unit r)
+   | "none" -> if !res = "ok" && (!ps_out = "-" || !ps_out = "ok") then
+       (match poll_fin () with Ok _ -> () | r -> res := "finerr:" ^ res_unit r)
    | "afin" -> fin2 := Some (res_unit (poll_fin ()))
    | "areset" -> (match send_reset fcode !s with (Ok _, s') -> s := s' | _ -> res := "PANIC-reset")
    | "lclose" ->
-     (match conn_close fcode with Ok c -> end_ := "close:" ^ string_of_n c | _ -> end_ := "PANIC");
-     let r = (match send_data marker !s with
-       | (Ok _, s') -> s := s';
-         (match poll_ready [WFail (match quinn_write_condition FLocalClose with Some e -> e | None -> assert false)] !s with
-          | ((Ready r, s'), _) -> s := s'; r
-          | ((Pending, _), _) -> failwith "pending")
-       | (r, _) -> r) in
-     res := res_unit r
+     (match conn_close via fcode with Ok c -> end_ := "close:" ^ string_of_n c | _ -> end_ := "PANIC");
+     let lost = [WFail (match quinn_write_condition FLocalClose with Some e -> e | None -> assert false)] in
+     (match ps_len with
+      | Some n ->
+        (match poll_send lost [gen_bytes seed 1000 0 (max n 1)] !s with
+         | (((Ready (Ok _), _), _), _) -> ps_out := "ok"
+         | (((Ready (Err e), _), _), _) -> ps_out := "err:" ^ stream_class e
+         | _ -> ps_out := "PANIC")
+      | None ->
+        let r = (match send_data marker !s with
+          | (Ok _, s') -> s := s';
+            (match poll_ready lost !s with
+             | ((Ready r, s'), _) -> s := s'; r
+             | ((Pending, _), _) -> failwith "pending")
+          | (r, _) -> r) in
+        res := res_unit r)
    | _ -> ());
   q 4;
   let qs = (!s).s_q in
   (match fname with
-   | "stop" -> end_ := "stopped" | "close" -> end_ := "closed"
+   | "stop" -> end_ := "stopped" | "close" -> end_ := "closed" | "timeout" -> end_ := "silent"
    | "lclose" -> ()
    | _ -> (match qs.qs_reset with
        | Some c -> end_ := "reset:" ^ string_of_n c
        | None -> if qs.qs_finished then end_ := "fin"));
   let rid = if kind = "uni" then "-" else
       (match bidi_new id with Ok b -> (match recv_id b.b_recv with Ok i -> string_of_n i | _ -> "PANIC") | _ -> "PANIC") in
-  let model = Printf.sprintf "ok res=%s recv=%s pfx=ok end=%s ids=%s pid=%s rid=%s dbl=%s dblp=%s ps=%s%s"
-      !res (digest qs.qs_log) !end_ (show_ids (List.rev !ids)) (string_of_n qs.qs_id) rid !dbl_out !dblp_out !ps_out
-      (match !fin2 with Some f -> " fin2=" ^ f | None -> "") in
+  let handed_frames = List.mapi (fun j chunks -> (j, buffer_chunks seed j chunks)) bufs in
+  let trunc = if fname <> "cfin" then "" else
+      " trunc=" ^ (if not !cancelled then "na" else
+        let accepted = List.fold_left (fun a (j, f) -> if j <= fat_i then a + wire_of f else a) 0 handed_frames in
+        if List.length qs.qs_log < accepted then "yes" else "no") in
+  let model = Printf.sprintf "ok res=%s recv=%s pfx=ok end=%s ids=%s pid=%s rid=%s dbl=%s dblp=%s ps=%s psp=%s%s%s"
+      !res (digest qs.qs_log) !end_ (show_ids (List.rev !ids)) (string_of_n qs.qs_id) rid !dbl_out !dblp_out !ps_out !psp_out
+      trunc (match !fin2 with Some f -> " fin2=" ^ f | None -> "") in
   (* ---- specification line *)
+  let framed_total = List.fold_left (fun a (_, f) -> a + wire_of f) 0 handed_frames in
+  let fault_class = match spec_write_fault (fault_of fname fcode) with Some e -> "err:" ^ stream_class e | None -> "ok" in
+  let fault_in_frames = peer_fault && fat_i < framed_total in
   let sres = match fname with
     | "none" | "areset" -> "ok"
-    | _ -> (match spec_write_fault (fault_of fname fcode) with Some e -> "err:" ^ stream_class e | None -> "ok") in
+    | "cfin" -> "*"
+    | "lclose" -> if ps_len = None then fault_class else "ok"
+    | _ when peer_fault -> if fault_in_frames then fault_class else "ok"
+    | _ -> fault_class in
+  let sps = match ps_len with
+    | None -> "-"
+    | Some _ ->
+      (match fname with
+       | "none" -> "ok"
+       | "lclose" -> fault_class
+       | _ when peer_fault -> if fault_in_frames then "-" else fault_class
+       | _ -> "-") in
   let srecv = if fname = "none" then
-      digest (spec_handed (List.mapi (fun j chunks -> EvAccepted (buffer_chunks seed j chunks)) bufs) @ ps_bytes)
+      digest (spec_handed (List.map (fun (_, f) -> EvAccepted f) handed_frames @ [EvRaw ps_bytes]))
     else "*" in
   let send_ = match fname with
-    | "none" | "afin" -> "fin" | "stop" -> "stopped" | "close" -> "closed"
+    | "none" | "afin" | "cfin" -> "fin" | "stop" -> "stopped" | "close" -> "closed" | "timeout" -> "silent"
     | "areset" -> "reset:" ^ string_of_n (spec_reset_code fcode)
     | "lclose" -> "close:" ^ string_of_n fcode | _ -> "*" in
   let sid = string_of_n id in
-  let spec = Printf.sprintf "ok res=%s recv=%s pfx=ok end=%s ids=%s pid=%s rid=%s dbl=%s dblp=%s ps=%s%s"
+  let refusal = "refused:" ^ stream_class spec_refusal in
+  let spec = Printf.sprintf "ok res=%s recv=%s pfx=ok end=%s ids=%s pid=%s rid=%s dbl=%s dblp=%s ps=%s psp=%s%s%s"
       sres srecv send_ (if !ids = [] then "-" else sid) sid (if kind = "uni" then "-" else sid)
-      (if dbl <> None && (match dbl with Some j -> j < List.length bufs | None -> false) && !dbl_out <> "-" then "refused:" ^ stream_class spec_refusal else "-")
-      (if !dblp_out <> "-" then "refused:" ^ stream_class spec_refusal else "-")
-      (if !ps_out = "-" then "-" else "ok")
+      (if !dbl_out <> "-" then refusal else "-")
+      (if !dblp_out <> "-" then refusal else "-")
+      sps
+      (if !psp_out <> "-" then "panic" else "-")
+      (if fname = "cfin" then " trunc=*" else "")
       (match !fin2 with Some _ -> " fin2=err:unknown" | None -> "") in
   model ^ " | " ^ spec
 
@@ -337,7 +391,7 @@ let run_qr t =
   let pstop = if lost then "LOST" else match und.qr_stops with
     | c :: _ -> string_of_n c
     | [] -> if fname = "fin" then "none" else "-" in
-  let pclose = if fname = "lclose" then (match conn_close fcode with Ok c -> string_of_n c | _ -> "PANIC") else "-" in
+  let pclose = if fname = "lclose" then (match conn_close (via_of t) fcode with Ok c -> string_of_n c | _ -> "PANIC") else "-" in
   let xid = if kind = "uni" then "-" else
       (match bidi_new id with Ok b -> (match send_id b.b_send with Ok i -> string_of_n i | _ -> "PANIC") | _ -> "PANIC") in
   let endv = match !ended with Some e -> e | None -> "open" in
@@ -373,10 +427,10 @@ let run_qa t =
   let m = match op with
     | "accept_recv" -> show_c (accept_recv (Err e))
     | "accept_bidi" -> show_c (accept_bidi (Err e))
-    | "open_bidi" -> show_s (open_bidi (Err e))
-    | "open_send" -> show_s (open_send (Err e))
+    | "open_bidi" -> show_s (open_bidi (via_of t) (Err e))
+    | "open_send" -> show_s (open_send (via_of t) (Err e))
     | _ -> failwith "op" in
-  let pclose = if fname = "lclose" then (match conn_close fcode with Ok c -> string_of_n c | _ -> "PANIC") else "-" in
+  let pclose = if fname = "lclose" then (match conn_close (via_of t) fcode with Ok c -> string_of_n c | _ -> "PANIC") else "-" in
   let s = "err:" ^ conn_class (spec_conn_class e) in
   Printf.sprintf "ok res=%s pclose=%s | ok res=%s pclose=%s" m pclose s (if fname = "lclose" then string_of_n fcode else "-")
 
@@ -393,7 +447,7 @@ let run_qd t =
     | _ -> None in
   let dclass = function
     | HDNotAvailable -> "notavailable" | HDTooLarge -> "toolarge" | HDConnectionError c -> conn_class c in
-  let pclose = if fname = "lclose" then (match conn_close fcode with Ok c -> string_of_n c | _ -> "PANIC") else "-" in
+  let pclose = if fname = "lclose" then (match conn_close (via_of t) fcode with Ok c -> string_of_n c | _ -> "PANIC") else "-" in
   let m, sp =
     if dir = "send" then begin
       let answer = match fname, ce with
